@@ -5,6 +5,7 @@
 From Coq Require Import Reals Lra List.
 From PV Require Import Num PyBase Model.Component Model.Mixture Model.Permeance Model.Solver Model.Process
   Lemmas.Composition Lemmas.Process.
+From PV Require Import Model.Curve Lemmas.Entry.
 Import ListNotations.
 Local Open Scope R_scope.
 
@@ -49,5 +50,34 @@ Section Steps.
   Proof. exact (flux_is_solver kind m cd dt prec ct slv perm f1 f2 FR1 FR2 n k st rows Hrun i row). Qed.
 End Steps.
 
+(* the fluxes of an ideal diffusion curve are the standalone calculation at each feed composition with the same
+   temperature, precision, permeate condition and activity model and permeances resolved through the membrane *)
+Theorem C08_ideal_curve PP (m : Mixture ROps) slv T xs Tp pp prec ct c :
+  ideal_diffusion_curve ROps PP m slv T xs Tp pp prec ct = Ok c ->
+  mapM (fun x => slv (Build_SolveArgs ROps T x prec Tp pp None None ct)) xs = Ok (cv_J c) /\ cv_xs c = xs /\ cv_T c = T
+  /\ cv_Tp c = Tp /\ cv_pp c = pp.
+Proof. exact (ideal_curve_fluxes PP m slv T xs Tp pp prec ct c). Qed.
+
+(* resolving the permeances through the membrane = supplying those permeances *)
+Theorem C08_membrane_permeances spec fix4 (m : Mixture ROps) perm perm' (a : SolveArgs ROps) P :
+  resolve_permeances ROps m perm a = Ok P ->
+  solve_gen ROps spec fix4 m perm a
+  = solve_gen ROps spec fix4 m perm' (Build_SolveArgs ROps (sa_T a) (sa_x a) (sa_prec a) (sa_Tp a) (sa_pp a) (Some (fst P)) (Some (snd P)) (sa_ct a)).
+Proof. exact (solve_resolved spec fix4 m perm perm' a P). Qed.
+
+(* step 0 of every process entry point *)
+Theorem C08_step0_ideal_isothermal (m : Mixture ROps) cd n dt prec ct slv perm rows :
+  ideal_isothermal ROps m cd n dt prec ct slv perm = Ok rows -> step0_statement m cd prec ct slv rows.
+Proof. exact (step0_ideal_isothermal m cd n dt prec ct slv perm rows). Qed.
+Theorem C08_step0_ideal_non_isothermal (m : Mixture ROps) cd n dt prec ct slv perm rows :
+  ideal_non_isothermal ROps m cd n dt prec ct slv perm = Ok rows -> step0_statement m cd prec ct slv rows.
+Proof. exact (step0_ideal_non_isothermal m cd n dt prec ct slv perm rows). Qed.
+Theorem C08_step0_non_ideal iso (m : Mixture ROps) cd n dt prec ct slv f1 f2 ip rows :
+  non_ideal_process ROps iso m cd n dt prec ct slv f1 f2 ip = Ok rows -> step0_statement m cd prec ct slv rows.
+Proof. exact (step0_non_ideal m cd n dt prec ct slv iso f1 f2 ip rows). Qed.
+
 Print Assumptions C08_every_step.
 Print Assumptions C08_separation_factor.
+
+Print Assumptions C08_ideal_curve.
+Print Assumptions C08_step0_non_ideal.
